@@ -200,7 +200,7 @@ class Chunk:
         """write, compile to IR; drop out-of-domain kernels to a fixpoint."""
         t0 = time.time()
         san = SAN_WRAP if self.mode == "wrap" else SAN_UB
-        for _ in range(16):
+        for _ in range(48):
             self.write()
             cmd = [CLANG, "-std=" + self.std, san] + LOWER_FLAGS + ["-ferror-limit=0"] + self.incflags() + \
                   ["-S", "-emit-llvm", self.src, "-o", self.ll]
